@@ -229,7 +229,8 @@ class Check:
         new_viol = 0
         known_hit = {}
         unconfirmed = 0
-        rdir = os.path.join(VERIF, 'evidence', 'replays', s.prop)
+        evdir = os.environ.get('VERIF_EVIDENCE_DIR') or os.path.join(VERIF, 'evidence')
+        rdir = os.path.join(evdir, 'replays', s.prop)
         os.makedirs(rdir, exist_ok=True)
         for old in os.listdir(rdir):
             os.remove(os.path.join(rdir, old))
@@ -261,8 +262,8 @@ class Check:
                'tree': build.tree_id(), 'explanation': explanation, 'trusted_base': list(trusted), 'exhaustive': False}
         ev = {'property_id': s.prop, 'tier': s.tier, 'seed': s.seed, 'level': s.level, 'coverage': cov,
               'assumptions': s.assumptions, 'wall_s': round(wall, 2), 'violations': new_viol}
-        os.makedirs(os.path.join(VERIF, 'evidence'), exist_ok=True)
-        with open(os.path.join(VERIF, 'evidence', s.prop + '.json'), 'w') as fp:
+        os.makedirs(evdir, exist_ok=True)
+        with open(os.path.join(evdir, s.prop + '.json'), 'w') as fp:
             json.dump(ev, fp, indent=1, default=str)
         for l in out_lines:
             print(l)
